@@ -68,6 +68,26 @@ const (
 	caseWatchdog    = 90 * time.Second
 )
 
+// watchdog state: unix nano of the start of the current case (or of its last heartbeat), 0 = idle
+var started int64
+var hbCount uint32
+
+// Heartbeat tells the per-case watchdog that the current case is alive. A case that enumerates a
+// sub-space (thousands of real executions) calls it once per execution, so the watchdog bounds one
+// real execution, not the size of the case.
+func Heartbeat() {
+	if atomic.LoadInt64(&started) != 0 {
+		atomic.StoreInt64(&started, time.Now().UnixNano())
+	}
+}
+
+// HeartbeatCheap is Heartbeat for very short executions (reads the clock every 256th call).
+func HeartbeatCheap() {
+	if atomic.AddUint32(&hbCount, 1)&255 == 0 {
+		Heartbeat()
+	}
+}
+
 // CurrentTier is the tier of the run in progress (drivers whose cases enumerate sub-spaces read it).
 var CurrentTier = "quick"
 
@@ -107,9 +127,8 @@ func RunWorker(o WorkerOpts) int {
 		_ = w.Flush()
 	}
 
-	// per-case watchdog: a case that runs for caseWatchdog is reported as a hang and the worker exits;
+	// watchdog: a case that shows no sign of life for caseWatchdog is reported as a hang and the worker exits;
 	// the parent re-runs it in isolation before believing it.
-	var started int64 // unix nano of current case start, 0 = idle
 	var curIdx int64
 	go func() {
 		for {
